@@ -56,7 +56,6 @@ func runC01(ctx *core.Ctx, unit int) {
 	})
 }
 
-var parseDirTmp string
 
 // checkC01 pushes one canonical source through every entry point.
 func checkC01(src string, withDir bool) core.Outcome {
@@ -168,18 +167,11 @@ func trailingCommentMigrated(src, outA, outB string) bool {
 }
 
 func parseDirRoundTrip(src string) (outA, outB string, err error) {
-	if parseDirTmp == "" {
-		d, err := os.MkdirTemp("", "c01dir")
-		if err != nil {
-			return "", "", err
-		}
-		parseDirTmp = d
+	dir, err := scratchDir("c01dir")
+	if err != nil {
+		return "", "", err
 	}
-	dir := parseDirTmp
-	defer func() {
-		os.Remove(filepath.Join(dir, "a.go"))
-		os.Remove(filepath.Join(dir, "b.go"))
-	}()
+	defer os.RemoveAll(dir)
 	if err := os.WriteFile(filepath.Join(dir, "a.go"), []byte(src), 0o644); err != nil {
 		return "", "", err
 	}
